@@ -47,8 +47,16 @@ class Rec(object):
     def initialize(self, tasks, selected): pass
     def get_status(self, task): pass
     def execute_task(self, task): ev(ev='rep', what='execute', t=task.name)
-    def add_failure(self, task, fail): ev(ev='rep', what='fail', t=task.name)
-    def add_success(self, task): ev(ev='rep', what='success', t=task.name)
+    def add_failure(self, task, fail):
+        ev(ev='rep', what='fail', t=task.name)
+        self._internal_error(task)
+    def add_success(self, task):
+        ev(ev='rep', what='success', t=task.name)
+        self._internal_error(task)
+    def _internal_error(self, task):
+        # an internal error of the run: the reporter itself raises while reporting the outcome of one task
+        if INTR == task.name + ':report:RuntimeError':
+            raise RuntimeError('planted internal error while reporting ' + task.name)
     def skip_uptodate(self, task): ev(ev='rep', what='up-to-date', t=task.name)
     def skip_ignore(self, task): ev(ev='rep', what='ignore', t=task.name)
     def cleanup_error(self, exception): pass
@@ -68,10 +76,22 @@ def mk_td(name):
         return True
     return td
 
-def mk(name, spec):
-    def act():
+def mk_start(name):
+    def st():
         ev(ev='start', t=name)
-        if INTR.startswith(name + ':') and ':teardown:' not in INTR:
+        return True
+    return st
+
+def mk(name, spec, start=True):
+    def act():
+        if start:
+            ev(ev='start', t=name)
+        if spec.get('target'):
+            # the action (re)creates its target first, whatever happens afterwards
+            with open('out_' + name, 'w') as f:
+                f.write('made by ' + name)
+        if (INTR.startswith(name + ':') and ':teardown:' not in INTR and ':val:' not in INTR
+                and INTR.split(':')[-1] in EXC):
             raise EXC[INTR.split(':')[-1]]()
         ok = name not in SC['failing']
         ev(ev='end', t=name, ok=ok, digest=digest(spec['file_dep']))
@@ -85,6 +105,9 @@ def mk_val(name, spec):
     # an earlier action of the task returning values (saved as `_values_:` only when the whole task succeeds)
     def val():
         ev(ev='val', t=name)
+        if INTR.startswith(name + ':val:'):
+            ev(ev='start', t=name)
+            raise EXC[INTR.split(':')[-1]]()
         return {'dig': digest(spec['file_dep'])}
     return val
 
@@ -102,9 +125,21 @@ def gen():
                 # doit.tools.PythonInteractiveAction: same contract as a python-action, no output capture
                 from doit.tools import PythonInteractiveAction
                 act = PythonInteractiveAction(act)
-            acts = [mk_val(name, spec), act] if spec.get('values') else [act]
+            if spec.get('kind') == 'cmdsig':
+                # a cmd-action whose shell sends a signal to doit itself (its parent) while it is running:
+                # an interruption that comes from OUTSIDE the action (Ctrl-C / kill of the doit process)
+                cmd = ('case "$DOIT_C06_INTERRUPT" in %s:action:SIG*) kill -${DOIT_C06_INTERRUPT##*:SIG} $PPID; '
+                       'sleep 4;; esac' % name)
+                act = mk(name, spec, start=False)
+                acts = [mk_start(name), cmd, act]
+            else:
+                acts = [act]
+            if spec.get('values'):
+                acts = [mk_val(name, spec)] + acts
             d = {'basename': name, 'actions': acts, 'file_dep': spec['file_dep'],
                  'task_dep': spec['task_dep']}
+            if spec.get('target'):
+                d['targets'] = ['out_' + name]
             if spec.get('versioned'):
                 # the inputs are watched by an uptodate callable over a SAVED VALUE instead of doit's file_dep
                 d['file_dep'] = []
@@ -202,7 +237,26 @@ def gen_scenario(rng, mode):
             tasks[ti]['teardown'] = True
             where = 'teardown'
             sc['failing'] = [f for f in failing if f != ti]
-        sc['interrupt'] = '%s:%s:%s' % (ti, where, rng.choice(['KeyboardInterrupt', 'SystemExit']))
+        exc = rng.choice(['KeyboardInterrupt', 'SystemExit'])
+        r = rng.random()
+        if where == 'action' and rng.random() < 0.2:
+            # "or by an internal error": the reporter raises while reporting the outcome (success or failure) of ti
+            where, exc, r = 'report', 'RuntimeError', 1.0
+            if rng.random() < 0.5 and pre != 'none':
+                sc['failing'] = sorted(set(sc['failing']) | {ti})     # a previously successful task that now fails
+                if rng.random() < 0.6:
+                    # ... and that is stale only because its target was deleted (its failing action re-creates it)
+                    tasks[ti]['target'] = True
+                    tasks[ti]['versioned'] = False
+                    sc['rm_targets'] = [ti]
+                    sc['edits'] = [i for i in sc['edits'] if names[i] != ti and 'src_%d' % i not in tasks[ti]['file_dep']]
+        if where == 'action' and tasks[ti].get('values') and r < 0.3:
+            where = 'val'                     # inside the FIRST action of a multi-action task
+        elif where == 'action' and runner != 'process2' and r < 0.5:
+            # the interruption comes from outside: SIGINT delivered to doit while a cmd-action child runs
+            tasks[ti]['kind'] = 'cmdsig'
+            exc = 'SIGINT'
+        sc['interrupt'] = '%s:%s:%s' % (ti, where, exc)
     return sc
 
 
@@ -300,6 +354,9 @@ def prepare(sc, root):
         if sc['pre'] == 'run+edit':
             for i in sc['edits']:
                 write_src(d, i, 'v2 of %d -- longer\n' % i, 2000 + i)
+            for t in sc.get('rm_targets', []):
+                if os.path.exists(os.path.join(d, 'out_' + t)):
+                    os.remove(os.path.join(d, 'out_' + t))
     return d
 
 
